@@ -40,6 +40,11 @@ def run(tier, seed, replay):
             rec = {"clause": cl, "kind": c["kind"], "text": c["text"], "case": c,
                    # (events after the enumerated cases: a well-formed text parsed again after 40 rejections of another text)
                    "history_probe": line - 1 >= len(case_list)}
+            if rec["history_probe"]:
+                # the probe is one of the enumerated well-formed cases, parsed again after 40 rejections of another text
+                orig = next((x for x in case_list if x["text"] == c["text"] and x["kind"] == c["kind"]), None)
+                if orig is not None:
+                    rec["replay_case"] = dict(orig, after_rejections_of=c.get("after", ""))
             if line - 1 < len(case_list):
                 rec["replay_case"] = case_list[line - 1]
                 ch = case_list[line - 1].get("ch")
